@@ -787,3 +787,67 @@ def prange_contains(p, v):
     if lo is None or hi is None or type(lo) is not type(hi) or type(v) is not type(lo):
         return None
     return (lo <= v <= hi) if "Included" in (p.get("end") or "Included") else (lo <= v < hi)
+
+
+def inline_self_helpers(F, f, prefix, depth=1):
+    """a copy of f's HIR body in which calls of private helper methods (`self.helper(a, &mut b)`, callee path starting with
+    `prefix`, body available, not recursive) are replaced by the helper's body, its parameters renamed to the argument locals.
+    A block of a long function that was moved into a helper of the same type reads, for the rules, as if it were still in place.
+    -> (body, [inlined callee paths])"""
+    import copy
+    body = copy.deepcopy(f["hir"]["value"])
+    inlined = []
+
+    def rename(node, sub):
+        for n in walk(node, pats=True):
+            if n.get("k") == "Path" and n.get("res_kind") == "Local" and n.get("res") in sub:
+                n["res"] = sub[n["res"]]
+
+    def visit(node, d):
+        if isinstance(node, dict):
+            for key, val in list(node.items()):
+                if isinstance(val, dict):
+                    rep = try_inline(val, d)
+                    if rep is not None:
+                        node[key] = rep
+                        visit(rep, d + 1)
+                    else:
+                        visit(val, d)
+                elif isinstance(val, list):
+                    for i, x in enumerate(val):
+                        if isinstance(x, dict):
+                            rep = try_inline(x, d)
+                            if rep is not None:
+                                val[i] = rep
+                                visit(rep, d + 1)
+                            else:
+                                visit(x, d)
+
+    def try_inline(m, d):
+        if m.get("k") != "MethodCall" or d > depth:
+            return None
+        r = peel(m["recv"])
+        if not (r.get("k") == "Path" and r.get("res") == "self"):
+            return None
+        c = callee_of(m) or ""
+        g = F.fns.get(c)
+        if not g or "hir" not in g or not c.startswith(prefix) or c == f["path"] or c in inlined and False:
+            return None
+        params = [p_.get("name") for p_ in g["hir"]["params"]][1:]
+        if len(params) != len(m["args"]) or any(p_ is None for p_ in params):
+            return None
+        sub = {}
+        for p_, a in zip(params, m["args"]):
+            a2 = peel(a)
+            while a2.get("k") == "AddrOf":
+                a2 = peel(a2["e"])
+            if a2.get("k") == "Path" and a2.get("res_kind") == "Local":
+                sub[p_] = a2["res"]
+            else:
+                return None   # an argument that is not a plain local: keep the call
+        b = copy.deepcopy(g["hir"]["value"])
+        rename(b, sub)
+        inlined.append(c)
+        return b
+    visit(body, 0)
+    return body, inlined
